@@ -91,8 +91,14 @@ func Build(c *Cmd) *proto2.Command {
 	switch c.K {
 	case "cdb":
 		v := &proto2.CreateDatabaseCommand{Name: pS(db), ReplicaNum: pU32(1), EnableTagArray: pB(c.B1)}
+		if c.U1 > 1 { // a replicated database
+			v.ReplicaNum = pU32(uint32(c.U1))
+		}
 		if c.HasRP {
 			v.RetentionPolicy = rpInfo(rp, deref(c.D), deref(c.SGD))
+			if c.U1 > 1 {
+				v.RetentionPolicy.ReplicaN = pU32(uint32(c.U1))
+			}
 		}
 		return MkCmd(proto2.Command_CreateDatabaseCommand, proto2.E_CreateDatabaseCommand_Command, v)
 	case "markdb":
@@ -161,7 +167,11 @@ func Build(c *Cmd) *proto2.Command {
 		return MkCmd(proto2.Command_CreateDataNodeCommand, proto2.E_CreateDataNodeCommand_Command,
 			&proto2.CreateDataNodeCommand{HTTPAddr: pS(HostHTTP(c.H)), TCPAddr: pS(HostTCP(c.T)), Role: pS(role), Az: pS("")})
 	case "cptv":
-		return MkCmd(proto2.Command_CreateDbPtViewCommand, proto2.E_CreateDbPtViewCommand_Command, &proto2.CreateDbPtViewCommand{DbName: pS(db), ReplicaNum: pU32(1)})
+		rn := uint32(1)
+		if c.U1 > 1 {
+			rn = uint32(c.U1)
+		}
+		return MkCmd(proto2.Command_CreateDbPtViewCommand, proto2.E_CreateDbPtViewCommand_Command, &proto2.CreateDbPtViewCommand{DbName: pS(db), ReplicaNum: pU32(rn)})
 	case "uptinfo":
 		return MkCmd(proto2.Command_UpdatePtInfoCommand, proto2.E_UpdatePtInfoCommand_Command,
 			&proto2.UpdatePtInfoCommand{Db: pS(db), Pt: &proto2.PtInfo{Owner: &proto2.PtOwner{NodeID: pU64(c.COwner)}, Status: pU32(uint32(c.CStat)), PtId: pU32(uint32(c.Pt))},
@@ -269,6 +279,31 @@ func Build(c *Cmd) *proto2.Command {
 		return MkCmd(proto2.Command_InsertFilesCommand, proto2.E_InsertFilesCommand_Command, &proto2.InsertFilesCommand{})
 	case "rmevent":
 		return MkCmd(proto2.Command_RemoveEventCommand, proto2.E_RemoveEventCommand_Command, &proto2.RemoveEventCommand{EventId: pS(c.S1)})
+	case "cdsp":
+		return MkCmd(proto2.Command_CreateDownSamplePolicyCommand, proto2.E_CreateDownSamplePolicyCommand_Command,
+			&proto2.CreateDownSamplePolicyCommand{Database: pS(db), Name: pS(rp), DownSamplePolicyInfo: &proto2.DownSamplePolicyInfo{
+				Calls:              []*proto2.DownSampleOperators{{AggOps: []string{"sum", "max"}, DataType: pI64(1)}, {AggOps: []string{"mean"}, DataType: pI64(3)}},
+				DownSamplePolicies: []*proto2.DownSamplePolicy{{SampleInterval: pI64(int64(c.U1) * 3600000000000), TimeInterval: pI64(60000000000), WaterMark: pI64(int64(c.U1) * 3600000000000)}},
+				Duration:           pI64(c.TS), TaskID: pU64(0)}})
+	case "dsinfo":
+		return MkCmd(proto2.Command_UpdateShardDownSampleInfoCommand, proto2.E_UpdateShardDownSampleInfoCommand_Command,
+			&proto2.UpdateShardDownSampleInfoCommand{Ident: &proto2.ShardIdentifier{ShardID: pU64(c.ID), ShardGroupID: pU64(0), OwnerDb: pS(db), OwnerPt: pU32(0),
+				Policy: pS(rp), ShardType: pS("hash"), DownSampleLevel: pI64(int64(c.Status)), DownSampleID: pU64(c.U1), ReadOnly: pB(c.Def), EngineType: pU32(0)}})
+	case "cevent", "uevent":
+		ev := &proto2.MigrateEventInfo{EventId: pS(c.S1), EventType: pI32(int32(c.Status)), OpId: pU64(c.U1),
+			Pti: &proto2.DbPt{Db: pS(db), Pt: &proto2.PtInfo{Owner: &proto2.PtOwner{NodeID: pU64(c.COwner)}, Status: pU32(uint32(c.CStat)), PtId: pU32(uint32(c.Pt))},
+				DBBriefInfo: &proto2.DatabaseBriefInfo{Name: pS(db), EnableTagArray: pB(false)}},
+			CurrState: pI32(int32(c.Eng)), PreState: pI32(int32(c.Ver)), Src: pU64(c.Owner), Dest: pU64(c.ID), CheckConflict: pB(c.Def), AliveConnId: pU64(0)}
+		if c.K == "cevent" {
+			return MkCmd(proto2.Command_CreateEventCommand, proto2.E_CreateEventCommand_Command, &proto2.CreateEventCommand{EventInfo: ev})
+		}
+		return MkCmd(proto2.Command_UpdateEventCommand, proto2.E_UpdateEventCommand_Command, &proto2.UpdateEventCommand{EventInfo: ev})
+	case "reshard":
+		return MkCmd(proto2.Command_ReShardingCommand, proto2.E_ReShardingCommand_Command,
+			&proto2.ReShardingCommand{Database: pS(db), RpName: pS(rp), ShardGroupID: pU64(c.ID), SplitTime: pI64(c.TS), ShardBounds: []string{"m"}})
+	case "merge":
+		return MkCmd(proto2.Command_ReplaceMergeShardsCommand, proto2.E_ReplaceMergeShardsCommand_Command,
+			&proto2.ReplaceMergeShardsCommand{Db: pS(db), Rp: pS(rp), PtId: pU32(uint32(c.Pt)), ShardId: []uint64{c.ID, c.U1}})
 	case "ddsp":
 		return MkCmd(proto2.Command_DropDownSamplePolicyCommand, proto2.E_DropDownSamplePolicyCommand_Command,
 			&proto2.DropDownSamplePolicyCommand{Database: pS(db), RpName: pS(rp), DropAll: pB(true)})
